@@ -667,7 +667,7 @@ fn gen_sample(r: &mut StdRng, i: usize) -> Value {
 
 fn gen_items(r: &mut StdRng) -> Value {
 	// generated classes: a small hierarchy (inside and outside the jar) and random items over its names
-	let pk = ["a/", "a/b/", "", "zz/y/"];
+	let pk = ["a/", "a/b/", "", "zz/y/", "k\u{e4}se/gr\u{f6}\u{df}e/", "\u{20ac}/"];      // also names of more than one byte per character
 	let n = r.gen_range(2..7);
 	let mut names: Vec<String> = vec![];
 	for i in 0..n {
